@@ -6,6 +6,11 @@ HERE = os.path.dirname(os.path.dirname(os.path.abspath(__file__)))
 ALL = ["C%02d" % i for i in range(1, 21)]
 
 CLAIMED = {
+ "C16": dict(
+   technique="TLA+ model McChain.tla of the burn-in/collect protocol of the three samplers and of the backward pass, checked exhaustively by TLC; call sequences of real mcquad runs recorded at the API boundary (log_pfcn, custom_step, integrand wrappers; deterministic step makes chain positions observable) validated by TLC against Trace_McChain.tla with numeric verdicts in the final event",
+   text="TLC explores all (sampler, nsamples <= 4, nburnout <= 4) and checks: exactly nsamples recorded positions, first one after >= nburnout steps, consecutive positions continuing the burned-in chain, integrand evaluated on exactly the recorded positions, backward on the same positions; four deviation switches (restart from x0, wrong count, short burn-in, resampling in backward) are caught. ~110 (quick) real runs over samplers x (nsamples, nburnout) x explicit/object-held parameters x tuple outputs must be behaviours of the model with positions bound, and their final event must carry: value = weighted mean on the observed points, weights sum to one, dummy1d nodes/weights as documented, first- and second-order gradients equal to those of the self-normalised surrogate (score-function estimator) on the same points, zero/absent gradient for unused tensors without error, backward evaluated on the forward samples; plus constant integrand, linearity, mh statistics at 6 sigma.",
+   design_ref="5.11, 6 (C16)",
+   note="Trusted: TLC/SANY; plain-torch surrogate estimator as gradient reference; knowledge that mcquad probes the integrand once before sampling. For mh only counts/order are bound (positions are random)."),
  "C03": dict(
    technique="TLA+ model RootLoop.tla of the three iteration loops (quasi-Newton, Anderson, gd/adam) checked exhaustively by TLC; executions of every method on contractive problem families recorded through API-boundary observers (custom_terminator, function wrapper, warnings) and validated by TLC against Trace_RootLoop.tla, with the returned tensor re-inserted into the user's function",
    text="TLC explores every choice of residual/step classes per iterate for maxiter <= 4 in all three loops incl. the start-up shortcuts and checks: a silent return meets the tolerance, it is the very iterate that passed the test, an exact root never raises, warned iff not converged, the minimizer's fallback is no worse than the start; four deviation switches reproduce the defects that were in the code. ~740 (quick) real executions (7 methods x 6 families incl. exact-root starts, exact landings, constant maps, complex unknowns x tolerance settings x line search x tight budgets) must each be a behaviour of the model: every stop test is on the newest iterate with the verdict its classes imply, and the final event binds which iterate came back and the verdicts computed from the returned tensor itself (residual class, f <= f(y0), distance to the reference solution within the contraction bound, shape/dtype).",
